@@ -30,12 +30,15 @@ THEOREMS = ['link_refinement', 'link_refinement_framing_laws', 'link_refinement_
             'C11_call_through_introspected_proxy', 'bytes_run_simulated', 'C11_bytes_any_delivery_order_partial',
             'bytes_nothing_stuck_in_a_receiver', 'bytes_quiescence_reachable', 'bytes_quiescence_reachable_in_class',
             'C11_bytes_completion_always_reachable_partial', 'bytes_run_from_handshake_reduces',
-            'C11_bytes_from_handshake_partial', 'getRemoteObject_introspects_iff_unknown_name',
+            'C11_bytes_from_handshake_partial', 'C11_wire_codec_laws_c03', 'C11_bytes_any_delivery_order_c03_partial',
+            'exM0_ok', 'getRemoteObject_introspects_iff_unknown_name',
             'getRemoteObject_built_lists_every_requested', 'getRemoteObject_built_agrees',
             'C11_returns_what_it_returned', 'prefix_model_violates']
 TRUSTED_BASE = [
     'the introspection theorem\'s glue that no C11 stream exercises: `introspectedProxy`, ifaceOfIntro / methodOfIntro '
     'and the link hypothesis `ho` (Proofs/Net/Introspected.lean) - generate / getInterfaces are tied by C15\'s streams',
+    'c03Codec / c03Frame / byteRep (Net/CodecC03.lean) are run by no C11 stream: their parts (construct, parseMessage, '
+    'forward) are C03\'s model, tied by C03\'s streams',
     'bytes-net: the codec of the byte-level model is a TABLE of the bytes the real peers wrote (message text as the model '
     'prints it -> raw bytes observed on the pipe), not a Lean model of `_marshal` / `parseMessage` (C03\'s); handshake and '
     'Hello happen before `breset` (BNet.init starts after them); no big-endian peers and no relay in that stream',
